@@ -174,7 +174,7 @@ class SimFS:
         self._mkparents(self.cwd + '/x')
         self.encoding = world.get('encoding', 'utf-8')
         self.clock = float(world.get('epoch', 1.7e9))
-        self.mtimes = {}
+        self.mtimes = {p: float(t) for p, t in world.get('mtimes', {}).items()}
         self.inodes = {}
         self.events = []
         self.faults = {int(f['at']): f for f in world.get('faults', []) if 'at' in f}
@@ -184,6 +184,7 @@ class SimFS:
         self.tmp_names = list(world.get('tmp_names', []))
         self.tmp_count = 0
         self.modes = dict(world.get('modes', {}))   # path -> permission bits (unreadable files etc.)
+        self.fds = {}
         self.resource_mtime = world.get('resource_mtime')
         self.resource_root = os.path.realpath(os.environ.get('VERIF_REPO', '/repo') + '/src')
 
@@ -500,6 +501,20 @@ class SimFS:
     def open(self, file, mode='r', buffering=-1, encoding=None, errors=None, newline=None,
              closefd=True, opener=None):
         if isinstance(file, int):
+            if file in self.fds:
+                raw = self.fds[file]
+                binary = 'b' in mode
+                if buffering == 0:
+                    return raw
+                if raw.readable() and raw.writable():
+                    buf = io.BufferedRandom(raw)
+                elif raw.writable():
+                    buf = io.BufferedWriter(raw)
+                else:
+                    buf = io.BufferedReader(raw)
+                if binary:
+                    return buf
+                return io.TextIOWrapper(buf, encoding or self.encoding, errors, newline)
             return _real_open(file, mode, buffering, encoding, errors, newline, closefd, opener)
         n = self.norm(file)
         binary = 'b' in mode
@@ -546,6 +561,8 @@ class SimFS:
                 self.log('create', r)
             self.mtimes[r] = self.clock
         data = self.files[r]
+        if writing:
+            self.log('opened_w', r, mode)         # the open succeeded (an 'open' event alone is only the attempt)
         if k == 'read_truncate' and 'r' in mode and not writing:
             self.fired(f, idx, 'open')
             data = bytearray(data[:f['k']])
@@ -569,8 +586,108 @@ class SimFS:
         text.mode = mode
         return text
 
+    # ---- file-descriptor level API (os.open / os.fdopen / os.write / os.close ...) -----------------------------
+    FD_BASE = 100000
+
+    def os_open(self, path, flags, mode=0o777, *, dir_fd=None):
+        if dir_fd is not None or isinstance(path, int):
+            return _real['open'](path, flags, mode, dir_fd=dir_fd)
+        n = self.norm(path)
+        if not self.inside(n):
+            if flags & (os.O_WRONLY | os.O_RDWR | os.O_CREAT | os.O_TRUNC | os.O_APPEND):
+                self.gaps.append(('os.open-write-outside', n))
+                raise PermissionError(errno.EACCES, 'Permission denied (outside sim)', n)
+            return _real['open'](path, flags, mode)
+        acc = flags & (os.O_WRONLY | os.O_RDWR)
+        m = 'r' if acc == 0 else ('r+' if acc == os.O_RDWR else 'w')
+        # translate to the semantics of open(): creation / truncation / exclusivity are decided by the flags
+        r = self.resolve(n)
+        idx, f = self._event('open', n, f'os.open:{flags:#x}')
+        f = f or {}
+        k = f.get('kind')
+        simple = {'open_enoent': errno.ENOENT, 'open_eacces': errno.EACCES, 'open_eisdir': errno.EISDIR,
+                  'open_eio': errno.EIO, 'open_erofs': errno.EROFS, 'open_enospc': errno.ENOSPC, 'open_emfile': errno.EMFILE}
+        if k in simple:
+            self.fired(f, idx, 'open')
+            raise OSError(simple[k], os.strerror(simple[k]) + ' (sim)', n)
+        if r in self.dirs:
+            if acc:
+                raise IsADirectoryError(errno.EISDIR, 'Is a directory', n)
+            raise OSError(errno.ENOSYS, 'directory descriptors are not modelled', n)
+        exists = r in self.files
+        if exists and (flags & os.O_CREAT) and (flags & os.O_EXCL):
+            raise FileExistsError(errno.EEXIST, 'File exists', n)
+        if not exists:
+            if not (flags & os.O_CREAT):
+                raise FileNotFoundError(errno.ENOENT, 'No such file or directory', n)
+            if os.path.dirname(r) not in self.dirs:
+                raise FileNotFoundError(errno.ENOENT, 'No such file or directory', n)
+            self.files[r] = bytearray()
+            self.modes[r] = mode & 0o777 & ~0o022
+            self.log('create', r)
+        else:
+            perm = self.modes.get(r, 0o644)
+            if acc and not (perm & 0o200):
+                raise PermissionError(errno.EACCES, 'Permission denied', n)
+            if not acc and not (perm & 0o400):
+                raise PermissionError(errno.EACCES, 'Permission denied', n)
+        if (flags & os.O_TRUNC) and acc:
+            del self.files[r][:]
+            self.log('truncate', r)
+        if acc:
+            self.log('opened_w', r, m)
+            self.mtimes[r] = self.clock
+        raw = SimRaw(self, r, self.files[r], acc != os.O_WRONLY, bool(acc), bool(flags & os.O_APPEND),
+                     f if k in ('read_eio_after', 'write_enospc_after', 'close_eio') else None, idx)
+        fd = self.FD_BASE + len(self.fds)
+        self.fds[fd] = raw
+        return fd
+
+    def os_close(self, fd):
+        if fd in self.fds:
+            raw = self.fds.pop(fd)
+            if not raw.closed:
+                raw.close()
+            return None
+        return _real['close'](fd)
+
+    def os_write(self, fd, data):
+        if fd in self.fds:
+            return self.fds[fd].write(data)
+        return _real['write'](fd, data)
+
+    def os_read(self, fd, n):
+        if fd in self.fds:
+            b = bytearray(n)
+            got = self.fds[fd].readinto(b)
+            return bytes(b[:got])
+        return _real['read'](fd, n)
+
+    def os_fstat(self, fd):
+        if fd in self.fds:
+            return self._stat_result(self.fds[fd]._path)
+        return _real['fstat'](fd)
+
+    def os_lseek(self, fd, pos, how):
+        if fd in self.fds:
+            return self.fds[fd].seek(pos, how)
+        return _real['lseek'](fd, pos, how)
+
+    def os_ftruncate(self, fd, length):
+        if fd in self.fds:
+            return self.fds[fd].truncate(length)
+        return _real['ftruncate'](fd, length)
+
+    def os_fsync(self, fd):
+        if fd in self.fds:
+            return None
+        return _real['fsync'](fd)
+
     def snapshot(self):
         return {p: b2s(d) for p, d in sorted(self.files.items())}
+
+    def mtime_snapshot(self):
+        return {p: self.mtimes.get(p, self.clock_base()) for p in sorted(self.files)}
 
 
 # ---------------------------------------------------------------------------------------------
@@ -759,8 +876,17 @@ def install(world):
     import time
     fs = SimFS(world)
     for name in ('stat', 'lstat', 'listdir', 'mkdir', 'rmdir', 'remove', 'unlink', 'rename', 'replace',
-                 'chmod', 'utime', 'getcwd', 'chdir', 'access', 'readlink', 'scandir'):
+                 'chmod', 'utime', 'getcwd', 'chdir', 'access', 'readlink', 'scandir', 'open', 'close', 'write', 'read',
+                 'fstat', 'lseek', 'ftruncate', 'fsync'):
         _real.setdefault(name, getattr(os, name))
+    os.open = fs.os_open
+    os.close = fs.os_close
+    os.write = fs.os_write
+    os.read = fs.os_read
+    os.fstat = fs.os_fstat
+    os.lseek = fs.os_lseek
+    os.ftruncate = fs.os_ftruncate
+    os.fsync = fs.os_fsync
     os.stat = fs.stat
     os.lstat = fs.lstat
     os.listdir = fs.listdir
